@@ -19,7 +19,7 @@ PINS = {  # substring of the commit subject -> (property, [pinned replay files])
     "1-D FFT VJPs": ("C01", ["regress/C01/rfft-n-keyword.json"]),
     "matrix norm rules": ("C01", ["regress/C01/norm-negative-axis-pair.json", "regress/C01/norm-nuc-mixed-axis.json"]),
     "diagonal VJP": ("C01", ["regress/C01/diagonal-nonsquare.json"]),
-    "diff VJP": ("C01", ["regress/C01/diff-n-ge-len.json"]),
+    "diff VJP returns zeros": ("C01", ["regress/C01/diff-n-ge-len.json"]),
     "array() VJP accounts": ("C01", ["regress/C01/array-ndmin.json"]),
     "solve VJPs": ("C01", ["regress/C01/solve-broadcast.json"]),
     "sort/partition JVPs": ("C02", ["regress/C02/sort-jvp-nd.json", "regress/C02/partition-jvp-nd.json"]),
@@ -35,6 +35,11 @@ PINS = {  # substring of the commit subject -> (property, [pinned replay files])
     "slogdet VJP includes": ("C09", ["regress/C09/slogdet-complex-sign.json"]),
     "pinv VJP is correct for complex": ("C09", ["regress/C09/pinv-complex-nonsquare.json"]),
 }
+PINS.update({
+    "diff VJP zero cotangent": ("C05", ["regress/C05/diff-empty-complex.json"]),
+    "linspace JVP": ("C05", ["regress/C05/linspace-jvp-mixed.json"]),
+    "where JVP": ("C05", ["regress/C05/where-jvp-mixed.json"]),
+})
 EXTRA = {}
 
 
